@@ -33,6 +33,20 @@ type ChainCfg struct {
 	MaxTxPerBlock     uint16 `json:"max_tx_per_block,omitempty"`
 	MaxBlockSysFee    int64  `json:"max_block_sysfee,omitempty"`
 	MemPoolSize       int    `json:"mempool_size,omitempty"`
+	// ValidatorsHistory / CommitteeHistory (height -> count) replace the fixed sizes of the profile when set: the
+	// profile still names the standby committee (a prefix of CommitteeKeys), ValidatorsCount is left zero as the
+	// configuration rules demand. Heights must obey the rules of pkg/config (aligned with the committee size).
+	ValidatorsHistory map[uint32]uint32 `json:"validators_history,omitempty"`
+	CommitteeHistory  map[uint32]uint32 `json:"committee_history,omitempty"`
+}
+
+// StandbyValidators is the number of validators at height 0 (they hold the genesis funds).
+func (c ChainCfg) StandbyValidators() int {
+	if n, ok := c.ValidatorsHistory[0]; ok && len(c.ValidatorsHistory) > 0 {
+		return int(n)
+	}
+	_, vc := c.Sizes()
+	return vc
 }
 
 // NodeCfg holds node-local settings (they must not influence the ledger state).
@@ -102,6 +116,19 @@ func (c ChainCfg) Blockchain(n NodeCfg) config.Blockchain {
 			SaveStorageBatch:        n.SaveStorageBatch,
 			SaveInvocations:         n.SaveInvocations,
 		},
+	}
+	if len(c.ValidatorsHistory) > 0 {
+		cfg.ValidatorsCount = 0
+		cfg.ValidatorsHistory = map[uint32]uint32{}
+		for h, n := range c.ValidatorsHistory {
+			cfg.ValidatorsHistory[h] = n
+		}
+	}
+	if len(c.CommitteeHistory) > 0 {
+		cfg.CommitteeHistory = map[uint32]uint32{}
+		for h, n := range c.CommitteeHistory {
+			cfg.CommitteeHistory[h] = n
+		}
 	}
 	if cfg.MaxBlockSystemFee == 0 {
 		cfg.MaxBlockSystemFee = 900000000000
